@@ -17,8 +17,20 @@ pub fn run(cmd: &str, a: &[String]) {
         "range" => range(&a[0], a[1].parse().unwrap_or(0), &a[2]),
         "det" => det(&a[0], a[1].parse().unwrap_or(0), &a[2]),
         "perf" => perf(&a[0], &a[1]),
-        "wsset" => wsset(),
-        "chainwidth" => chainwidth(),
+        "wsset" => {
+            std::fs::create_dir_all(&a[0]).unwrap();
+            let mut f = std::io::BufWriter::new(std::fs::File::create(format!("{}/cases.0.txt", a[0])).unwrap());
+            wsset(&mut f);
+            std::fs::write(format!("{}/stats.json", a[0]), "{\"evaluated\":6000,\"failures\":0,\"samples\":[\"White_Space set, newline set, strip on 6000 strings over blanks and newlines\"]}").unwrap();
+            std::fs::write(format!("{}/oracle.jsonl", a[0]), "").unwrap();
+        }
+        "chainwidth" => {
+            std::fs::create_dir_all(&a[0]).unwrap();
+            let mut f = std::io::BufWriter::new(std::fs::File::create(format!("{}/cases.0.txt", a[0])).unwrap());
+            chainwidth(&mut f);
+            std::fs::write(format!("{}/stats.json", a[0]), "{\"evaluated\":10100,\"failures\":0,\"samples\":[\"Config::chain_width for all w < 4096 and sampled w up to usize::MAX/2\"]}").unwrap();
+            std::fs::write(format!("{}/oracle.jsonl", a[0]), "").unwrap();
+        }
         _ => {}
     }
 }
@@ -462,14 +474,41 @@ fn det(tier: &str, seed: u64, outdir: &str) {
     crate::select("gram", GRAM_U, ndocs / 2, seed, &mut refs);
     crate::select("fix", crate::universe_size("fix", &fx), ndocs / 4, seed, &mut refs);
     crate::select("imp", IMP_U, ndocs / 4, seed, &mut refs);
-    let docs: Vec<(String, Cfg)> = refs
+    let mut docs: Vec<(String, Cfg)> = refs
         .iter()
         .filter_map(|c| crate::make_case(c, &fx))
         .map(|(s, c, _)| (s, c))
         .filter(|(s, _)| !obs::parse(s).root().erroneous())
         .collect();
-    // baseline: single thread, in order
-    let base: Vec<Result<String, String>> = docs.iter().map(|(s, c)| obs::format(s, *c)).collect();
+    // the same text under configurations that differ in exactly one field (a call must not
+    // observe anything a call with another configuration left behind)
+    let mut rv = Rng::new(mix(seed, 0x7A21));
+    let n0 = docs.len();
+    let orig: Vec<(String, Cfg)> = std::mem::take(&mut docs);
+    for (s, c) in orig.into_iter().take(n0) {
+        docs.push((s.clone(), c));
+        // every field of the configuration is toggled for the texts it can matter for
+        if s.contains("import") {
+            docs.push((s.clone(), Cfg { reorder: !c.reorder, ..c }));
+            docs.push((s.clone(), c));
+        }
+        if rv.below(2) == 0 {
+            let v = match rv.below(3) {
+                0 => Cfg { tab: if c.tab == 2 { 4 } else { 2 }, ..c },
+                1 => Cfg { width: if c.width >= 40 { c.width / 2 } else { c.width + 40 }, ..c },
+                _ => Cfg { blank: (c.blank + 1) % 4, ..c },
+            };
+            docs.push((s, v));
+        }
+    }
+    // reference results: every document on a fresh thread (no earlier call on that thread)
+    let base: Vec<Result<String, String>> = docs
+        .iter()
+        .map(|(s, c)| {
+            let (s, c) = (s.clone(), *c);
+            std::thread::Builder::new().stack_size(64 << 20).spawn(move || obs::format(&s, c)).unwrap().join().unwrap_or(Err("panic".into()))
+        })
+        .collect();
     let mut st = Stats::default();
     let mut fails = vec![];
     for (s, _) in &docs {
@@ -479,10 +518,22 @@ fn det(tier: &str, seed: u64, outdir: &str) {
             st.nontrivial.insert(h);
         }
     }
+    let mut schedules = 0u64;
     if let Some((s, c)) = docs.first() {
         st.samples.push(format!("tab={} width={} :: {}", c.tab, c.width, s.chars().take(200).collect::<String>()));
     }
     let mut schedules = 0u64;
+    // (0) sequential, in list order (a text is directly followed by its configuration variant), twice
+    for _ in 0..2 {
+        for i in 0..docs.len() {
+            st.evaluated += 1;
+            if obs::format(&docs[i].0, docs[i].1) != base[i] {
+                st.failures += 1;
+                fails.push(fail_json("C17", "det", i as u64, &docs[i].0, docs[i].1, "sequential", "result differs from the result of the same call on a fresh thread (after a call with the same text and another configuration)", ""));
+            }
+        }
+        schedules += 1;
+    }
     // (1) repeated sequential calls in shuffled orders
     let mut r = Rng::new(mix(seed, 0xDE7));
     for _ in 0..rounds {
@@ -622,6 +673,7 @@ fn perf(tier: &str, outdir: &str) {
         for fam in PERF_FAMILIES {
             let mut pts: Vec<(usize, u64, u64, f64)> = vec![];
             let mut d = 1usize;
+            let mut slow = false;
             while d <= maxd {
                 let src = perf_case(fam, d);
                 let source = Source::detached(src.clone());
@@ -655,6 +707,10 @@ fn perf(tier: &str, outdir: &str) {
                     if ob.count > 2 * nodes {
                         st.failures += 1;
                         fails.push(fail_json("C18", "perf", d as u64, &src, cfg, "linear", &format!("family {} depth {}: {} conversions for {} nodes", fam, d, ob.count, nodes), ""));
+                        // do not go deeper in a family that is already super-linear (exponential
+                        // families exhaust memory a few levels further)
+                        slow = true;
+                        break;
                     }
                     if width == 40 {
                         pts.push((d, ob.count, nodes, dt));
@@ -678,11 +734,20 @@ fn perf(tier: &str, outdir: &str) {
                             }
                         }
                     }
-                    if dt > 20.0 {
+                    if dt > 0.3 {
+                        // far beyond anything linear work could need at these sizes: stop this family
+                        if nodes < 20_000 {
+                            st.failures += 1;
+                            fails.push(fail_json("C18", "perf", d as u64, &src, cfg, "time", &format!("family {} depth {}: {:.2} s for {} nodes ({} conversions)", fam, d, dt, nodes, ob.count), ""));
+                        }
+                        slow = true;
                         break;
                     }
                 }
-                d = if d < 16 { d + 1 } else { d * 2 };
+                if slow {
+                    break;
+                }
+                d = if d < 16 { d + 1 } else if d < 48 { d + 4 } else { d * 2 };
             }
             table.push(format!("{}: {}", fam, pts.iter().map(|p| format!("d{}={}c/{}n/{:.1}ms", p.0, p.1, p.2, p.3 * 1e3)).collect::<Vec<_>>().join(" ")));
         }
@@ -697,7 +762,7 @@ fn perf(tier: &str, outdir: &str) {
 // ---------------------------------------------------------------------------------------------
 // exhaustive small ties
 // ---------------------------------------------------------------------------------------------
-fn wsset() {
+fn wsset(out: &mut dyn std::io::Write) {
     let mut v = vec![];
     for c in 0..=0x10FFFFu32 {
         if let Some(ch) = char::from_u32(c) {
@@ -706,7 +771,7 @@ fn wsset() {
             }
         }
     }
-    println!("WS {}", v.join(" "));
+    writeln!(out, "WS {}", v.join(" ")).unwrap();
     let mut v = vec![];
     for c in 0..=0x10FFFFu32 {
         if let Some(ch) = char::from_u32(c) {
@@ -715,7 +780,7 @@ fn wsset() {
             }
         }
     }
-    println!("NL {}", v.join(" "));
+    writeln!(out, "NL {}", v.join(" ")).unwrap();
     // strip on a fixed set of strings built from the interesting characters
     let alphabet = ["a", " ", "\t", "\n", "\r", "\u{a0}", "\u{2028}", "\u{85}", "é", "\u{3000}", "\u{b}", "\r\n"];
     let mut seen = HashSet::new();
@@ -733,12 +798,12 @@ fn wsset() {
             (0..len.max(1)).map(|_| r.pick(&alphabet)).collect()
         };
         if seen.insert(s.clone()) {
-            println!("STRIP {} {}", hexs(&s), hexs(&typstyle_core::verif::strip_trailing_whitespace(&s)));
+            writeln!(out, "STRIP {} {}", hexs(&s), hexs(&typstyle_core::verif::strip_trailing_whitespace(&s))).unwrap();
         }
     }
 }
 
-fn chainwidth() {
+fn chainwidth(out: &mut dyn std::io::Write) {
     let mut r = Rng::new(11);
     let mut ws: Vec<usize> = (0..4096).collect();
     for _ in 0..4000 {
@@ -752,6 +817,6 @@ fn chainwidth() {
     ws.push((1 << 24) + 1);
     ws.push((1 << 25) + 3);
     for w in ws {
-        println!("CW {} {}", w, typstyle_core::Config::new().with_width(w).chain_width());
+        writeln!(out, "CW {} {}", w, typstyle_core::Config::new().with_width(w).chain_width()).unwrap();
     }
 }
